@@ -32,12 +32,16 @@ def main():
         if not os.path.exists(patch):
             continue
         meta = json.load(open(os.path.join(d, 'meta.json')))
+        if meta.get('neutralised'):
+            summary.append((sid, 'neutralised (not run)'))
+            continue
         prop = sid.split('-')[0]
         r = sh(['git', '-C', REPO, 'apply', patch])
         if r.returncode != 0:
             meta['detected_by'] = {'error': 'patch does not apply to the current tree: ' + r.stderr[:200]}
             json.dump(meta, open(os.path.join(d, 'meta.json'), 'w'), indent=1)
             summary.append((sid, 'PATCH DOES NOT APPLY'))
+            print(summary[-1], flush=True)
             continue
         try:
             fired = {}
